@@ -1,6 +1,7 @@
 import ShellOp.Util
 import ShellOp.Model.Informer
 import ShellOp.Model.MonitorEnable
+import ShellOp.Model.SnapshotCache
 /-! Line-protocol suite for C01 (informer hand-over protocol). Core-only. -/
 namespace ShellOp.Drv.C01
 open ShellOp ShellOp.Util ShellOp.Informer
@@ -223,6 +224,18 @@ def stepAll (d : DSt) (toks : List String) : DSt × String :=
       if before.any hasEvent then (d, s!"false event-before-successful-synchronization runs={showStrs runs}")
       else (d, "true")
     | _, _ => (d, "bad-op")
+  | "us" :: ctxs =>
+    -- `us <binding>:<includes>:<isSync> …`: the snapshot reads one hook run makes for these binding
+    -- contexts (model of HookController.UpdateSnapshots); includes are `+`-separated, `-` = none
+    let parse := fun (t : String) => match t.splitOn ":" with
+      | [b, inc, sy] => do
+        let b ← b.toNat?
+        let inc ← if inc == "-" then some [] else (inc.splitOn "+").mapM String.toNat?
+        some (SnapshotCache.BC.mk b inc (sy == "1"))
+      | _ => none
+    match ctxs.mapM parse with
+    | some l => (d, "reads=" ++ showNats (SnapshotCache.updateSnapshots (fun _ _ => []) l).1.calls)
+    | none => (d, "bad-op")
   | "oracle" :: "op-lock" :: rest =>
     -- lock state seen while a hook execution was held: `binding:unlocked:syncDone` per binding.
     -- A binding may be unlocked (its Events flow to the hook) only if a SUCCESSFUL execution that
